@@ -13,7 +13,7 @@ R7.5 comment markers inside string literals are plain text (shared with C06 R6.2
 Not decided: equality of the resulting trees for all separator assignments (follows from these clauses plus C06 R6.5 only as far
 as the tokenizer is concerned)."""
 import tables
-from absint import Interp, SYM, C, ADT, OK, ERR, SOME, NONE, Fork, Stop, fmt, is_adt, Budget
+from absint import Interp, SYM, C, ADT, OK, ERR, SOME, NONE, Fork, Stop, fmt, is_adt, Budget, apps
 from mirlib import short, path_endswith
 from rules.treepaths import branches_of, is_true
 from rules.tokpaths import iteration_paths
@@ -32,30 +32,61 @@ def run(ctx):
     r73b(ctx, prog)
 
 
-def loop_paths(prog, f, comment_world):
-    """paths of one iteration of str_to_partial_tokens for each partial-token class of the current character"""
-    pt = prog.adt(tables.PARTIAL)
-    worlds = []
-    for v in pt['variants']:
-        fields = [SYM('payload')] if v['fields'] else []
-        worlds.append((v['name'], ADT(pt['path'], v['idx'], v['name'], fields)))
+CHARS = ['"', '/', '*', '+', '-', '(', ',', '=', '&', 'a', '1', '.', '_', ' ', '\t', '\n', '\\', '\u00e9', '\u3000']
+
+
+def char_paths(prog, f, comment_world=None):
+    """One iteration of the first tokenizer stage (str_to_partial_tokens) per representative current character: the first `next()` of
+    the character iterator yields that character; comment skipping and the string scanner are case-split (their own rules decide
+    them); the loop's back edge ends the path. Returns [(char, ret, effects)]. The current character is concrete, so it makes no
+    difference whether the code classifies it before or after turning it into a partial token."""
     out = []
-    for wname, wval in worlds:
-        def hook(it, fn, t, args, wval=wval):
+    pt_, tk_ = prog.adt(tables.PARTIAL), prog.adt(tables.TOKEN)
+    vt = [x for x in pt_['variants'] if x['name'] == 'Token'][0]
+    vs = [x for x in tk_['variants'] if x['name'] == 'String'][0]
+    # what the string scanner returns on success (C06 R6.2 decides that function): a complete string token
+    string_token = ADT(pt_['path'], vt['idx'], 'Token', [ADT(tk_['path'], vs['idx'], 'String', [SYM('string_text')])])
+    for ch in CHARS:
+        state = {'n': 0}
+
+        def hook(it, fn, t, args, ch=ch, state=state):
             c = t['callee']
-            if c.get('local') and c['name'] == 'char_to_partial_token':
-                return wval
+            if fn is f and c['name'] == 'next' and not c.get('local') and 'Peekable' in (c.get('self_ty') or c['def']):
+                state['n'] += 1
+                return SOME(C(ch))
             if c.get('local') and c['name'] == 'try_skip_comment':
-                return comment_world
+                return comment_world if comment_world is not None else Fork([OK(C(True)), OK(C(False)), ERR(SYM('comment_error'))])
             if c.get('local') and c['name'] == 'parse_string_literal':
-                return Fork([OK(SYM('string_token')), ERR(SYM('string_error'))])
+                return Fork([OK(string_token), ERR(SYM('string_error'))])
             if c['name'] == 'new' and 'Vec' in c['def']:
                 return SYM('result')
             return None
-        ps = Interp(prog, hook=hook, loop_bound=0, record_backedge=True).paths(f, [SYM('string')])
+        ps = Interp(prog, hook=hook, loop_bound=0, record_backedge=True, max_depth=4, const_chars=True).paths(f, [SYM('string')])
         for ret, eff in ps:
-            out.append((wname, wval, ret, eff))
+            out.append((ch, ret, eff))
     return out
+
+
+_CLS = {}
+
+
+def char_class(prog, ch):
+    """the partial-token kind char_to_partial_token gives the character (R7.2 decides that function itself)"""
+    key = (id(prog), ch)
+    if key not in _CLS:
+        g = prog.fn('token::char_to_partial_token')
+        ps = Interp(prog, const_chars=True).paths(g, [C(ch)]) if g is not None else []
+        kinds = {p[0][3] for p in ps if p[0][0] == 'adt'}
+        _CLS[key] = list(kinds)[0] if len(kinds) == 1 else None
+    return _CLS[key]
+
+
+def _pushed(eff):
+    """(fused text pushes onto the last literal, partial tokens pushed onto result) along a path, helpers included"""
+    calls = [(e[0].split('::')[-1], e[2]) for e in eff if not e[0].startswith('<')]
+    fused = [a for nm, a in calls if nm == 'push_str']
+    pushed = [a for nm, a in calls if nm == 'push' and len(a) == 2 and a[0] == SYM('result')]
+    return calls, fused, pushed
 
 
 def r71_73(ctx, prog):
@@ -64,58 +95,103 @@ def r71_73(ctx, prog):
         ctx.unrecognised('R7.1', 'str_to_partial_tokens', 'missing', 'not found')
         return
     pt = prog.adt(tables.PARTIAL)
-    ws = [v for v in pt['variants'] if v['name'] == 'Whitespace'][0]
-    WS = ADT(pt['path'], ws['idx'], 'Whitespace', [])
-    # ---- R7.1: comment skipped
+
+    def PT(name, *fields):
+        v = [x for x in pt['variants'] if x['name'] == name][0]
+        return ADT(pt['path'], v['idx'], name, list(fields))
+    WS = PT('Whitespace')
     try:
-        paths = loop_paths(prog, f, OK(C(True)))
+        paths = []
+        for world, wv in ((True, OK(C(True))), (False, OK(C(False))), ('err', ERR(SYM('comment_error')))):
+            for ch, ret, eff in char_paths(prog, f, wv):
+                # characters that never reach comment skipping behave the same in every world: keep them once
+                reached = any(not e[0].startswith('<') and e[0].split('::')[-1] == 'try_skip_comment' for e in eff)
+                if reached or world is True:
+                    paths.append((ch, ret, eff, world if reached else None))
     except Budget:
         ctx.unrecognised('R7.1', 'str_to_partial_tokens', 'budget', 'too complex', span=f.span)
         return
-    n = 0
-    for wname, wval, ret, eff in paths:
-        calls = [(e[0].split('::')[-1], e[2], e[3]) for e in eff if not e[0].startswith('<')]
-        if not any(nm == 'try_skip_comment' for nm, _, _ in calls):
-            continue
-        n += 1
-        i = [k for k, (nm, _, _) in enumerate(calls) if nm == 'try_skip_comment'][0]
-        after = calls[i + 1:]
-        pushes = [a for nm, a, _ in after if nm == 'push' and a and a[0] == SYM('result')]
-        sp = calls[i][2]
-        good = ret[0] == 'backedge' and any(a[1] == WS for a in pushes)
-        ctx.check(good, 'R7.1', 'comment-path[%s]' % wname, 'no-separator',
-                  'after a skipped comment a Whitespace separator is pushed before the next character is read (pushes after the comment: %s); without it `a/**/b` fuses to `ab` and `1/**/2` to `12`' % [fmt(a[1]) for a in pushes], span=sp)
-    ctx.floor('R7.1', 'comment_paths', n, 1)
-    # comment error is returned
-    paths_e = loop_paths(prog, f, ERR(SYM('comment_error')))
-    errs = [(w, ret) for w, _, ret, eff in paths_e if any(e[0].endswith('try_skip_comment') for e in eff)]
-    ctx.check(bool(errs) and all(ret == ERR(SYM('comment_error')) for _, ret in errs), 'R7.1', 'comment-error', 'error', 'an error from comment skipping (unterminated `/*`) is returned unchanged', span=f.span)
-    # only a `/` can start a comment
-    starters = sorted({w for w, _, ret, eff in paths if any(e[0].endswith('try_skip_comment') for e in eff)})
-    ctx.check(starters == ['Slash'], 'R7.1', 'comment-start', 'starter', 'comment skipping is attempted only after a `/` (found after %s)' % starters, span=f.span)
-    # ---- R7.3: fusion, with no comment
-    paths = loop_paths(prog, f, OK(C(False)))
     lit_idx = [v['idx'] for v in pt['variants'] if v['name'] == 'Literal'][0]
-    n_f = 0
-    for wname, wval, ret, eff in paths:
-        if ret[0] != 'backedge':
+    starters, string_starters = set(), set()
+    n_comment = n_fusion = 0
+    err_ok = True
+    for ch, ret, eff, world in paths:
+        calls, fused, pushed = _pushed(eff)
+        names = [nm for nm, _ in calls]
+        if 'try_skip_comment' in names:
+            starters.add(ch)
+            i = names.index('try_skip_comment')
+            outcome = [e for e in eff if not e[0].startswith('<') and e[0].split('::')[-1] == 'try_skip_comment']
+            # which world was taken: look at what followed
+            after_push = [a for nm, a in calls[i + 1:] if nm == 'push' and len(a) == 2 and a[0] == SYM('result')]
+            after_fuse = [a for nm, a in calls[i + 1:] if nm == 'push_str']
+            if ret == ERR(SYM('comment_error')):
+                err_ok = err_ok and not after_push and not after_fuse
+                continue
+            if is_adt(ret, 'result::Result', 'Err'):
+                err_ok = False
+                continue
+            n_comment += 1
+            if world is True:
+                good = ret[0] == 'backedge' and [a[1] for a in after_push] == [WS] and not after_fuse
+                ctx.check(good, 'R7.1', 'comment-path[%s]' % ch, 'no-separator',
+                          'after a skipped comment exactly a Whitespace separator is pushed before the next character is read (pushes after the comment: %s); without it `a/**/b` fuses to `ab` and `1/**/2` to `12`' % [fmt(a[1]) for a in after_push], span=f.span)
+            elif world is False:
+                good = ret[0] == 'backedge' and [a[1] for a in after_push] == [PT('Slash')] and not after_fuse
+                ctx.check(good, 'R7.1', 'no-comment-path[%s]' % ch, 'slash', 'a `/` that starts no comment is the division operator (pushes %s)' % [fmt(a[1]) for a in after_push], span=f.span)
+        if 'parse_string_literal' in names:
+            string_starters.add(ch)
+        # ---- fusion of adjacent word characters (no comment, no string)
+        if 'try_skip_comment' in names or 'parse_string_literal' in names or ret[0] != 'backedge':
             continue
-        calls = [(e[0].split('::')[-1], e[2]) for e in eff if not e[0].startswith('<')]
-        if any(nm == 'parse_string_literal' for nm, _ in calls):
-            continue
-        fused = [a for nm, a in calls if nm == 'push_str']
-        pushed = [a for nm, a in calls if nm == 'push' and a and a[0] == SYM('result')]
         br = branches_of(eff)
-        last_is_literal = any('last_mut' in fmt(v) and v[0] == 'app' and v[1] == 'discriminant' and v[2][0][0] == 'proj' and t == C(lit_idx) for v, t in br)
-        n_f += 1
-        inst = 'fusion[%s,last%s]' % (wname, '=Literal' if last_is_literal else '!=Literal')
-        if wname == 'Literal' and last_is_literal:
-            good = len(fused) == 1 and not pushed and fused[0][1] == SYM('payload') and 'last_mut' in fmt(fused[0][0])
-            ctx.check(good, 'R7.3', inst, 'fuse', 'two adjacent word characters fuse: the character is appended to the last Literal', span=f.span)
+        # the discriminant of the *element* `result.last_mut()` points to (not of the Option itself) was found to be Literal
+        last_is_literal = any(v[0] == 'app' and v[1] == 'discriminant' and v[2][0][0] == 'proj' and 'as Some' in v[2][0][2] and any(n_.split('::')[-1].split('#')[0] in ('last_mut', 'last') for n_, _x in apps(v)) and t == C(lit_idx) for v, t in br)
+        cls = char_class(prog, ch)
+        is_word = cls == 'Literal'
+        is_space = cls == 'Whitespace'
+        n_fusion += 1
+        inst = 'fusion[%r,last%s]' % (ch, '=Literal' if last_is_literal else '!=Literal')
+        if is_word and last_is_literal:
+            good = len(fused) == 1 and not pushed and _bare_text(fused[0][1]) == C(ch)
+            ctx.check(good, 'R7.3', inst, 'fuse', 'two adjacent word characters fuse: the character is appended to the last Literal (fused %s, pushed %s)' % ([fmt(a[1])[:40] for a in fused], [fmt(a[1])[:40] for a in pushed]), span=f.span)
         else:
-            good = not fused and len(pushed) == 1 and pushed[0][1] == wval
-            ctx.check(good, 'R7.3', inst, 'no-fuse', 'any other combination pushes the partial token as its own element (fused %d, pushed %s)' % (len(fused), [fmt(a[1]) for a in pushed]), span=f.span)
-    ctx.floor('R7.3', 'fusion_cases', n_f, 16)
+            good = not fused and len(pushed) == 1
+            if good and is_space:
+                good = pushed[0][1] == WS
+            elif good and is_word:
+                good = is_adt(pushed[0][1], 'token::PartialToken', 'Literal') and _bare_text(pushed[0][1][4][0]) == C(ch)
+            ctx.check(good, 'R7.3', inst, 'no-fuse', 'any other combination pushes the partial token as its own element (fused %d, pushed %s)' % (len(fused), [fmt(a[1])[:50] for a in pushed]), span=f.span)
+    ctx.floor('R7.1', 'comment_paths', n_comment, 2)
+    ctx.check(err_ok, 'R7.1', 'comment-error', 'error', 'an error from comment skipping (unterminated `/*`) is returned unchanged and nothing is pushed', span=f.span)
+    ctx.check(sorted(starters) == ['/'], 'R7.1', 'comment-start', 'starter', 'comment skipping is attempted only after a `/` (found after %s)' % sorted(starters), span=f.span)
+    ctx.check(sorted(string_starters) == ['"'], 'R7.5', 'string-start', 'starter', 'the string scanner is entered exactly at a `"` (found at %s)' % sorted(string_starters), span=f.span)
+    ctx.floor('R7.3', 'fusion_cases', n_fusion, 16)
+
+
+def _comment_world(eff):
+    """which outcome of try_skip_comment a path took (True / False), from the branch on its result"""
+    for e in eff:
+        if e[0] == '<branch>':
+            v, t = e[2]
+            if v[0] == 'c' and isinstance(v[1], bool):
+                continue
+    # the hook returned a constant Ok(bool): the first constant boolean consumed after the call decides; recover it from the pushes
+    calls = [(e[0].split('::')[-1], e[2]) for e in eff if not e[0].startswith('<')]
+    names = [nm for nm, _ in calls]
+    i = names.index('try_skip_comment')
+    pushed = [a[1] for nm, a in calls[i + 1:] if nm == 'push' and len(a) == 2]
+    if any(is_adt(x, 'token::PartialToken', 'Whitespace') for x in pushed):
+        return True
+    if any(is_adt(x, 'token::PartialToken', 'Slash') for x in pushed):
+        return False
+    return None
+
+
+def _bare_text(x):
+    while x[0] == 'app' and len(x[2]) == 1 and x[1].split('::')[-1].split('<')[0] in ('to_string', 'to_owned', 'into', 'from', 'clone', 'as_str', 'as_ref', 'deref', 'borrow'):
+        x = x[2][0]
+    return x
 
 
 def r72(ctx, prog):
@@ -172,6 +248,18 @@ def r74(ctx, prog):
             elif v[0] == 'proj' and src != '?' and t[0] == 'c' and isinstance(t[1], int) and not isinstance(t[1], bool) and v[2][-2:] == ('as Some', '0'):
                 # `match iter.peek() { Some('/') => ..` : a switch on the character itself
                 facts.append((src, chr(t[1]), True, 'into_iter' in s))
+            elif v[0] == 'app' and v[1].split('::')[-1] in ('is_some', 'is_none', 'discriminant') and len(v[2]) == 1 and v[2][0][0] == 'app' and v[2][0][1].split('::')[-1].split('#')[0] == 'next_if_eq' \
+                    and len(v[2][0][2]) == 2 and v[2][0][2][1][0] == 'c':
+                # `iter.next_if_eq(&'/')`: a look-ahead test that consumes the character when it matches
+                nm_ = v[1].split('::')[-1]
+                held = (is_true(t) if nm_ == 'is_some' else (not is_true(t) if nm_ == 'is_none' else t == C(1)))
+                facts.append(('peek', v[2][0][2][1][1], held, False))
+            elif v[0] == 'app' and v[1].split('::')[-1] in ('eq', 'ne') and 'PartialEq' in v[1] and len(v[2]) == 2 and src != '?':
+                # `iter.peek() == Some(&'/')`
+                for a_, b_ in ((v[2][0], v[2][1]), (v[2][1], v[2][0])):
+                    if is_adt(b_, 'option::Option', 'Some') and b_[4][0][0] == 'c' and isinstance(b_[4][0][1], str):
+                        held = is_true(t) if v[1].split('::')[-1] == 'eq' else not is_true(t)
+                        facts.append((src, b_[4][0][1], held, 'into_iter' in s))
         # a line comment skipped with Iterator::find(|&c| c == '\n') instead of a for loop
         for e in eff:
             if not e[0].startswith('<') and e[0].split('::')[-1] in ('find', 'position', 'any') and 'Iterator' in e[0] and len(e[2]) == 2 and e[2][1][0] == 'closure':
@@ -185,10 +273,31 @@ def r74(ctx, prog):
         consumed = sum(1 for e in eff if not e[0].startswith('<') and e[0].split('::')[-1] == 'next')
         line = ('peek', '/', True, False) in facts
         star = ('peek', '*', True, False) in facts
-        closed = any(src == 'next' and ch == '*' and tv for src, ch, tv, _ in facts) and any(src == 'peek' and ch == '/' and tv for src, ch, tv, _ in facts[1:])
-        for src, ch, tv, in_for in facts:
-            if in_for:
-                terminators.add(ch)
+        # the closing marker: a consumed `*` and, after it, a `/` (looked ahead and consumed, or consumed by a scanner that remembers the `*`).
+        # The `*` that opened the comment does not count: it is the item of the first next() after the opening look-ahead.
+        nexts = [e[4] for e in eff if not e[0].startswith('<') and len(e) > 4 and e[4] is not None and e[0].split('::')[-1] in ('next', 'next_if_eq', 'next_if') and 'into_iter' not in fmt(e[4])[:0]]
+        opening_item = nexts[0] if nexts else None
+        star_terms = []
+        for v_, t_ in br:
+            if v_[0] == 'app' and len(v_[2]) == 2 and (v_[1] == 'binop:Eq' or (v_[1].split('::')[-1] == 'eq' and 'PartialEq' in v_[1])) and is_true(t_):
+                for a_, b_ in ((v_[2][0], v_[2][1]), (v_[2][1], v_[2][0])):
+                    cst = b_[1] if b_[0] == 'c' else (b_[4][0][1] if is_adt(b_, 'option::Option', 'Some') and b_[4][0][0] == 'c' else None)
+                    if cst == '*':
+                        star_terms.append(a_)
+            elif v_[0] == 'proj' and t_ == C(ord('*')):
+                star_terms.append(v_)
+        from absint import has_subterm
+        opening_only = bool(star_terms) and opening_item is not None and all(has_subterm(x_, opening_item) or x_ == opening_item for x_ in star_terms[1:] or star_terms) and len(star_terms) >= 1
+        stars = [i for i, (src, ch, tv, _) in enumerate(facts) if i >= 1 and ch == '*' and tv]
+        if opening_item is not None and star_terms:
+            later = [x_ for x_ in star_terms if not (x_ == opening_item or has_subterm(x_, opening_item)) and 'peek' not in fmt(x_)]
+            if not later:
+                stars = []
+        closed = any(ch == '/' and tv and any(i < j for i in stars) for j, (src, ch, tv, _) in enumerate(facts) if j >= 1)
+        if line and not star:
+            for src, ch, tv, in_for in facts[1:]:
+                if in_for and src == 'next':
+                    terminators.add(ch)
         # a look-ahead character that was matched as part of a comment marker is consumed before the next look-ahead / the return
         pending = None
         unconsumed = []
@@ -200,6 +309,9 @@ def r74(ctx, prog):
                     continue
                 if sv.startswith('binop:Eq(') and is_true(t):
                     pending = v[2][1][1] if v[2][1][0] == 'c' else (v[2][0][1] if v[2][0][0] == 'c' else '?')
+                elif v[0] == 'app' and v[1].split('::')[-1] == 'eq' and 'PartialEq' in v[1] and is_true(t) and any(is_adt(a_, 'option::Option', 'Some') for a_ in v[2]):
+                    pending = [a_[4][0][1] for a_ in v[2] if is_adt(a_, 'option::Option', 'Some') and a_[4][0][0] == 'c'][0:1]
+                    pending = pending[0] if pending else '?'
                 elif v[0] == 'proj' and t[0] == 'c' and isinstance(t[1], int) and not isinstance(t[1], bool) and v[2][-2:] == ('as Some', '0'):
                     pending = chr(t[1])
             elif not e[0].startswith('<'):
